@@ -9,7 +9,7 @@
       Laws (V a b m 0 :: cs) x   ↔   V(a) = V(b)  ∧  J_m = (what KCL at b asks for)
                                        ∧ Laws (cs with node b renamed to a) x
 
-  (`kill_V_equiv`, mirrored orientation `kill_V_equiv'`): the KCL row of the merged node a is the
+  (`kill_V_equiv`, mirrored orientation `kill_V_equiv_rev`): the KCL row of the merged node a is the
   sum of the rows of a and b, nothing touches b any more.  `wire_merge_sound` / `wire_merge_complete`
   give the explicit maps between the solutions of the two netlists, `wire_current_unique` says the
   wire current is determined, and `parallel_wires_current_free` / `self_loop_current_free` show that
@@ -67,9 +67,9 @@ theorem kill_V_equiv (kind : Kind) (s : K) (cs : List (Cpt K)) (x : Ix → K) (a
        Laws kind s (cs.map (Cpt.mapNodes (merge a b))) x) :=
   WireMerge.kill_V_equiv_aux kind s m cs x hb hab
 
-/-- **(2) kill_V_equiv'**: the mirrored orientation (the wire's SECOND node survives; needed when the
+/-- **(2) kill_V_equiv_rev**: the mirrored orientation (the wire's SECOND node survives; needed when the
     second node is ground: `V n 0 m 0` merges n into ground) -/
-theorem kill_V_equiv' (kind : Kind) (s : K) (cs : List (Cpt K)) (x : Ix → K) (a b m : Nat)
+theorem kill_V_equiv_rev (kind : Kind) (s : K) (cs : List (Cpt K)) (x : Ix → K) (a b m : Nat)
     (hb : b ≠ 0) (hab : a ≠ b) :
     Laws kind s (Cpt.V b a m 0 :: cs) x ↔
       (volt x a = volt x b ∧ x (br m) = -lsum (cs.map (outflow kind s x b)) ∧
